@@ -75,6 +75,20 @@ fn gen_c06(r: &mut Rng, _t: Tier, _job: u64) -> Plan {
     p.reads = gen_reads(r);
     p.arrival = gen_arrival(r);
     p.writes = gen_writes(r, true);
+    if r.chance(1, 25) {
+        // the same values over a TLS connection (rows larger than a TLS record / rustls'
+        // 64 KiB send buffer included)
+        p.cfg.tls_offered = true;
+        p.cfg.tls = Some(TlsClient {
+            cert: false,
+            v13: r.coin(),
+            seed: r.next(),
+        });
+        p.writes = WriteSched::all();
+        if r.coin() {
+            p.writes.accept = vec![*r.pick(&[5u32, 64, 1000, 4096])];
+        }
+    }
     p
 }
 
@@ -345,6 +359,26 @@ fn gen_c08(r: &mut Rng, _t: Tier, _job: u64) -> Plan {
             act: Act::Program(simple_ok_program()),
         });
     }
+    if np > 0 && r.chance(1, 6) {
+        // one parameter is streamed (SEND_LONG_DATA) for the first execution; the executions
+        // after it bind it inline again and must see exactly the inline value
+        let k = r.below(np as u64) as u16;
+        let n = size_tiny(r);
+        let pos = cmds.iter().position(|c| matches!(c.kind, CmdKind::Execute { stmt, .. } if stmt == id)).unwrap_or(cmds.len());
+        cmds.insert(
+            pos,
+            Cmd {
+                seq: 0,
+                kind: CmdKind::LongData {
+                    stmt: id,
+                    param: k,
+                    data: blob_bytes(r, n),
+                },
+                act: Act::None,
+            },
+        );
+        fix_long_data(&mut cmds);
+    }
     let mut p = Plan::basic(cmds);
     p.reads = gen_reads(r);
     if r.chance(1, 4) {
@@ -438,6 +472,58 @@ fn count_c09(r: &mut Rng) -> usize {
 
 fn gen_c09(r: &mut Rng, _t: Tier, _job: u64) -> Plan {
     let mut cmds = Vec::new();
+    if r.chance(1, 8) {
+        // one prepared statement executed several times: every execution declares its own
+        // resultset header (same or different column count); what the client receives is what
+        // that execution declared
+        let id = r.next() as u32;
+        let nc = 1 + r.usize_below(4);
+        let decl: Vec<ColSpec> = (0..nc).map(|_| col_c09(r, false)).collect();
+        cmds.push(Cmd {
+            seq: 0,
+            kind: CmdKind::Prepare(query_text(r)),
+            act: Act::Prepare(PrepAct::Reply {
+                id,
+                params: vec![],
+                cols: decl,
+            }),
+        });
+        for _ in 0..2 + r.usize_below(3) {
+            let n2 = if r.chance(3, 4) { nc } else { 1 + r.usize_below(4) };
+            let cols: Vec<ColSpec> = (0..n2).map(|_| col_c09(r, false)).collect();
+            cmds.push(Cmd {
+                seq: 0,
+                kind: CmdKind::Execute {
+                    stmt: id,
+                    flags: 0,
+                    iters: 1,
+                    block: ParamBlock {
+                        bind: None,
+                        values: vec![],
+                        raw: None,
+                        stale_types: None,
+                    },
+                },
+                act: Act::Program(one_unit(Unit::Rows(RowsUnit {
+                    cols,
+                    rows: vec![],
+                    write_row: true,
+                    last_row_ended: true,
+                    close: Close::Finish,
+                    contra: None,
+                    recover: None,
+                }))),
+            });
+            if r.chance(1, 5) {
+                cmds.push(Cmd {
+                    seq: 0,
+                    kind: CmdKind::Close(id),
+                    act: Act::None,
+                });
+                break;
+            }
+        }
+    }
     let n = 1 + r.usize_below(3);
     for _ in 0..n {
         if r.coin() {
@@ -1044,6 +1130,51 @@ fn gen_c16(r: &mut Rng, _t: Tier, _job: u64) -> Plan {
     for _ in 0..nexec {
         let s = r.usize_below(ns);
         let (id, np, types) = &mut st[s];
+        if types.is_some() && r.chance(1, 14) {
+            // the shim hands the same id out again for a new PREPARE (no close in between): the
+            // new statement has no bound types, so an execution that binds nothing (a client
+            // still believing in its old types) must not be decoded with them
+            let old = types.clone().unwrap();
+            let np2 = old.len();
+            cmds.push(Cmd {
+                seq: 0,
+                kind: CmdKind::Prepare(query_text(r)),
+                act: Act::Prepare(PrepAct::Reply {
+                    id: *id,
+                    params: (0..np2).map(|_| gen_col_text(r)).collect(),
+                    cols: vec![],
+                }),
+            });
+            *types = None;
+            if r.coin() {
+                let values = (0..np2)
+                    .map(|i| {
+                        let mut v = gen_pval(r, old[i].0, old[i].1, false);
+                        if matches!(v, PVal::Null) {
+                            v = gen_pval(r, old[i].0, old[i].1, false);
+                        }
+                        v
+                    })
+                    .collect();
+                cmds.push(Cmd {
+                    seq: 0,
+                    kind: CmdKind::Execute {
+                        stmt: *id,
+                        flags: 0,
+                        iters: 1,
+                        block: ParamBlock {
+                            bind: None,
+                            values,
+                            raw: None,
+                            stale_types: Some(old),
+                        },
+                    },
+                    act: Act::Program(simple_ok_program()),
+                });
+                break;
+            }
+            continue;
+        }
         if r.chance(1, 7) {
             // long data for one parameter of this statement: consumed by its next execution,
             // which must leave the bound types of the statement alone
